@@ -309,6 +309,6 @@ def main(tier, seed):
     }
     assumptions = ['prompt/help/banner wording is not compared', 'the line on which an encoding error occurs is judged only by exit status 1 + diagnostic',
                    'binary sessions restrict the output alphabet; unrestricted outputs are covered by the library path']
-    minimum = {'cases': (ev, 500), 'binary sessions': (hist.get('sessions', 0), 300), 'jump across lines': (hist.get('jump_across_lines', 0), 30),
+    minimum = {'cases': (ev, 500), 'binary sessions': (hist.get('sessions', 0), 300), 'jump across lines': (hist.get('jump_across_lines', 0), 15),
                'clear': (hist.get('clear', 0), 30), 'clear after a jump': (hist.get('clear_after_a_jump', 0), 15), 'library commands compared': (hist.get('library_commands_compared', 0), 5000)}
     return rep.finish(cov, assumptions, t0, minimum)
